@@ -210,9 +210,15 @@ class _BaseLayout(MaildirLayout[_MaildirT], metaclass=ABCMeta):
     def get_folder(self, name: str, delimiter: str) -> _MaildirT:
         path = self.get_path(name, delimiter)
         try:
-            return self._maildir(path, create=False)
+            maildir = self._maildir(path, create=False)
         except NoSuchMailboxError as exc:
             raise FileNotFoundError(path) from exc
+        for subdir in ('cur', 'new', 'tmp'):
+            if not os.path.isdir(os.path.join(path, subdir)):
+                # left behind by an interrupted CREATE or DELETE: a directory
+                # that is not (or no longer) a maildir is not a mailbox
+                raise FileNotFoundError(path)
+        return maildir
 
     def add_folder(self, name: str, delimiter: str) -> None:
         self._add_folder(self._split(name, delimiter))
